@@ -569,7 +569,7 @@ def malformed_from(rng, pools):
     return f"{w()} {b()} {int(rng.integers(0, 9))} {cm()} {int(rng.integers(0, 9))}"
 
 
-NCASES = {"quick": dict(d1=200, d2=220, rand=300, flat=220, malformed=90, spacing=100),
+NCASES = {"quick": dict(d1=400, d2=440, rand=600, flat=440, malformed=180, spacing=200),
           "thorough": dict(rand=7000, flat=3000, malformed=2500, spacing=1500)}
 MAXTOK = {"quick": 40, "thorough": 60}
 
